@@ -251,6 +251,11 @@ def handle (line : String) : String :=
     match k.toNat?, parseBytes rdb, parseBytes cmds, parseFrags frags with
     | some k, some rdb, some cmds, some frags => dumpLine ⟨k, ascii ntxt, rdb, cmds⟩ frags
     | _, _, _, _ => "badcase"
+  | ["dumpmain", _par, rdbs, _cmds, _frag, _pseed] =>
+    -- every source is dumped by its own dbDumper: each file is that source's RDB (`dump_file_exact` per source)
+    match (rdbs.splitOn ";").mapM parseBytes with
+    | some l => "files=" ++ ",".intercalate (l.map showBytes)
+    | none => "badcase"
   | ["dumpfile", nsize, _, data, frags] =>
     match nsize.toInt?, parseBytes data, parseFrags frags with
     | some nsize, some data, some frags => dumpFileLine nsize data frags
